@@ -123,4 +123,13 @@ LEVELS["C18"] = {
     "note": BASE_NOTE + " One file template; commands driven at Run(ctx) level.",
 }
 
-NOT_APPLICABLE = {}
+LEVELS["C20"] = {
+    "text": "Bounded symbolic model checking of the JSON views (reduced scope): json.ToJson runs from SSA up to the encoder call; the envelope / record / entry / error view tree handed to "
+            "encoding/json is checked against the parsed data for every generated document within the bound. The JSON text itself is outside this technique's reach (reflection) and "
+            "is only sampled through the natively replayed witnesses.",
+    "note": BASE_NOTE + " encoding/json is an opaque codec in the engine.",
+}
+
+NOT_APPLICABLE = {
+    "C19": "bookmark persistence rests on encoding/json Marshal/Unmarshal of the database file (reflection-driven, not encodable by the SSA executor) and on real file-system semantics; with the codec stubbed the remaining map logic is a thin wrapper over a Go map - not claimed rather than claimed vacuously (DESIGN section 6)",
+}
